@@ -194,6 +194,15 @@ class DropletBase:
             self._data_array, other._data_array, rtol=0, atol=0, equal_nan=True
         )
 
+    def __getstate__(self):
+        return {"data": np.array(self.data).reshape(1)}
+
+    def __setstate__(self, state):
+        # a record restored from a pickle is detached from any array, so that assigning
+        # its fields would have no effect; we thus store the data as an array and take
+        # the record from it, as in `_init_data`
+        self.data = state["data"].view(np.recarray)[0]
+
     def check_data(self):
         """Method that checks the validity and consistency of self.data."""
 
